@@ -22,6 +22,8 @@ BINCFG = [
     ('0-3-6-9', [0, 3, 6, 9], [-1, 0, 1, 3, 5, 6, 7, 9, 10]),
     ('half', [0, .5, 1, 1.5, 2], [-.25, 0, .25, .5, .75, 1, 1.25, 1.5, 1.75, 2, 2.5]),
     ('0-7-14', [0, 7, 14], [0, 3, 7, 10, 14, 15]),
+    ('half-int', [0.5, 2.5, 4.5, 6.5], [0, 1, 2, 3, 4, 5, 6, 7]),            # integer samples, non-integer edges (outer edges must not be truncated)
+    ('neg-half', [-3.5, -1.5, 0.5, 2.5], [-4, -3, -2, -1, 0, 1, 2, 3]),
 ]
 
 
@@ -172,6 +174,22 @@ def _edges(ctx, col, np):
         col.evaluations += 1; col.states += 1
         r = attempt(ed, True)
         if r != 'accepted': col.violation('C13/edges/uniform-refused', 'linspace(%s, %s, %d) %s' % (lo, hi, nb + 1, r), {'linspace': [lo, hi, nb + 1]})
+        # the same grid held in float32 (what numpy.linspace returns for float32 end points, e.g. the min/max of float32 traces) is uniform up to
+        # the rounding of its own dtype and must be accepted too
+        ed32 = np.linspace(np.float32(lo), np.float32(hi), nb + 1).astype('float32')
+        if len(np.unique(ed32)) == nb + 1:
+            col.evaluations += 1; col.states += 1
+            r = attempt(ed32, True, 'float32')
+            if r != 'accepted': col.violation('C13/edges/uniform-refused/float32', 'float32 linspace(%s, %s, %d) %s' % (lo, hi, nb + 1, r), {'linspace': [lo, hi, nb + 1], 'dtype': 'float32'})
+    # automatic binning (edges derived from the first batch) must at least be usable for every trace dtype
+    for tdt in ('uint8', 'int16', 'float32', 'float64'):
+        rs = np.random.RandomState(5)
+        Xa = (rs.rand(40, 3) * 50).astype(tdt); Ya = rs.randint(0, 4, (40, 1)).astype('uint8')
+        col.evaluations += 1; col.states += 1; col.transitions += 1
+        try:
+            da = scared.MIADistinguisher(bins_number=8, partitions=[0, 1, 2, 3]); da.update(Xa, Ya); da.compute()
+        except Exception as e:
+            col.violation('C13/edges/automatic-binning-raised', 'MIADistinguisher(bins_number=8) on %s traces: %s: %s' % (tdt, type(e).__name__, e), {'tdtype': tdt})
     for scale in (1e-6, 1e-3, 1.0, 1e3, 1e6):
         for base in ([0, 2, 3], [0, 1, 3], [0, 1, 3, 4], [0, 1, 2, 4], [0, 3, 4, 5], [0, 1, 2, 3, 5]):
             ed = [b * scale for b in base]
